@@ -2325,7 +2325,7 @@ func boundFuncs(st *State, cl Closure, depth int) []string {
 		}
 		switch x := v.(type) {
 		case Closure:
-			out = append(out, x.Fn.Name())
+			out = append(out, x.Fn.String())
 			out = append(out, boundFuncs(st, x, depth+1)...)
 		case Sym:
 			out = append(out, x.Name)
